@@ -506,11 +506,11 @@ pub fn run(ctx: &mut Ctx) {
         }
         Ok(())
     };
-    ctx.check("quorum-exhaustive", tier.pick(220, 4000), case_strategy(6, false), &body);
-    ctx.check("quorum-tapes", tier.pick(250, 6000), case_strategy(12, true), &body);
+    ctx.check("quorum-exhaustive", tier.pick(700, 8000), case_strategy(6, false), &body);
+    ctx.check("quorum-tapes", tier.pick(2000, 60000), case_strategy(12, true), &body);
 
     let (jc, (meta_send, resp_send, ack, joined)) = &join;
-    ctx.check("join-responses-exhaustive", tier.pick(60, 600), jcase_strategy(), |c: &JCase, obs: &mut Obs| {
+    ctx.check("join-responses-exhaustive", tier.pick(200, 2000), jcase_strategy(), |c: &JCase, obs: &mut Obs| {
         obs.class("join_responses");
         obs.nontrivial(c.resp1.len() + c.resp2.len() >= 2 && !c.meta2.is_empty());
         let mut outs: Vec<Vec<(u8, (u8, u8))>> = vec![];
